@@ -33,7 +33,8 @@ def main():
         open(p, "w").write(s)
     rc, o = sh("./setup.sh")
     print("setup rc", rc, o[-300:], flush=True)
-    prefixes = sys.argv[1:]
+    own_only = "--own-only" in sys.argv
+    prefixes = [a for a in sys.argv[1:] if not a.startswith("--")]
     seeds = sorted(d for d in os.listdir(os.path.join(ROOT, "seeded")) if os.path.exists(os.path.join(ROOT, "seeded", d, "patch.diff")))
     if prefixes:
         seeds = [s for s in seeds if any(s.startswith(p) for p in prefixes)]
@@ -46,7 +47,7 @@ def main():
         if rc != 0:
             print(seed, "patch does not apply:", o[-200:], flush=True)
             continue
-        for c in checks:
+        for c in ([meta.get("property")] if own_only else checks):
             t = time.time()
             for f in glob.glob(os.path.join(ROOT, "replays", "*")):
                 os.remove(f)
